@@ -19,7 +19,7 @@ Proof. exact (reader_builder_templ D p m0 t cs m2). Qed.
 Theorem C04_edge D t p s d ctl labs :
   (is_loc t s || is_bp t s) && (is_loc t d || is_bp t d) = true ->
   build (EdgeBegin s d ctl :: flat_map read_label labs ++ [EdgeEnd]) (mkb D (Some t) p) =
-  mkb D (Some (with_edges t (dt_edges t ++ [mk_edge s d ctl labs]))) (PCur (length (dt_edges t))).
+  mkb D (Some (with_edges t (dt_edges t ++ [mk_edge s d ctl labs]))) PNone.
 Proof. exact (build_edge D t p s d ctl labs). Qed.
 Theorem C04_locations D p ls t :
   nodup_names (map dl_name (dt_locs t)) ls = true ->
